@@ -3,11 +3,41 @@
 import json, subprocess
 
 CLAIMS = {
+ "C02": dict(
+  level="exploration", ref="DESIGN.md §3.1",
+  text="Seeded deterministic simulation of the conversation with the second party: the real engine and dockerlog.Querier run against a simulated daemon whose concurrent ContainerLogs calls are released in a seeded order; the recorded transport history (which containers were asked, with which since/until/options) and the labels of every returned line are judged against a small reference selection model. Sampling over inventories, selectors and ranges: evidence, not proof.",
+  note="Trusted: the reference selection model (sim/verifsim/refsel.go: exact (in)equality, Go regexp anchored as ^(?:re)$, missing label = empty string), the reference label derivation incl. key sanitising (world.go), and the reading of the daemon's since/until. Container inventories carry at most one name; Docker label keys never collide after sanitising.",
+  technique="deterministic simulation: simulated Docker daemon + seeded release scheduler; transport-history oracle against a reference selection model"),
  "C03": dict(
   level="fault_enumeration", ref="DESIGN.md §3.2",
   text="Seeded deterministic simulation of the decoder's only counterpart, the reader: every sampled stream is decoded through dockerlog.ParseLog and through Engine.Eval under seeded fragmentation, fault-free and with a single fault; for streams under 600 bytes the fault is enumerated over every byte offset (cut, read error) and every frame index (daemon-error frame, bad timestamp, missing separator, empty payload). The oracle is the world itself (the decoded form) plus the prefix rule of the statement. Enumeration is per sampled stream, sampling across streams: evidence, not proof.",
   note="Trusted: the stdcopy encoder and the stop/position classifier of the simulated stream (sim/verifsim/world.go, daemon.go); Go's time formatting for timestamps. Re-polling Next after it returned false is part of the workload because the engine's range aggregation does it.",
   technique="deterministic simulation: seeded simulated reader (fragmentation, truncation, read errors, corrupt frames) with single-fault enumeration per stream; prefix oracle"),
+ "C04": dict(
+  level="exploration", ref="DESIGN.md §3.3",
+  text="The completion order of the concurrent per-container log requests is owned by the simulator (one parked call released per quiescence point inside a testing/synctest bubble); each sampled world is merged under K release orders - all n! for small n - with independent read fragmentation, and the merged sequence is checked for conservation, per-source order, time order and equality across release orders. Sampling over worlds: evidence, not proof.",
+  note="Trusted: the scheduler's claim that application goroutines run one at a time between quiescence points (synctest.Wait), the world encoder. The expected record set per container is what the simulated daemon delivered for the options it was actually asked with (window correctness is C02's).",
+  technique="deterministic simulation: seeded/enumerated release orders of parked ContainerLogs calls; conservation, order and cross-schedule equality oracles"),
+ "C10": dict(
+  level="exploration", ref="DESIGN.md §3.4",
+  text="Hash-map iteration order while a sample's label set is materialised is put behind a seam (build tag verif) and driven by the PRNG, one permutation per LabelSet.Range call; every plan runs under the sorted order and three seeded orders. Results are compared with the partition of the same samples obtained through the log path and projected textbook-style, per step. Sampling over worlds and queries: evidence, not proof.",
+  note="Trusted: the engine's log path as the reference for which labels a sample carries (its stream key is a sorted, quoted rendering), textbook by/without projection, sample timestamps strictly off window edges (so C09's edge semantics never matter), integer-valued samples.",
+  technique="deterministic simulation: PRNG-driven map-iteration order at a guarded seam; partition oracle from the log path"),
+ "C14": dict(
+  level="fault_enumeration", ref="DESIGN.md §3.5",
+  text="Query shape x fault x position x completion order, all owned by the simulator. 30% of the plans enumerate every single fault over everything the fault-free twin touched (each byte offset of each stream for cut and read error, each frame x corruption kind, each open call x release order, each list call, cancellation at each transport event); the others carry one or two seeded faults in larger worlds. Oracle: a fault the code was told about must surface as an error (never a panic or hang), an unobserved one must leave the fault-free twin's answer, and every reader handed out must have been closed when evaluation returns. Enumeration per sampled world, sampling across worlds and templates: evidence, not proof.",
+  note="Trusted: the definition of 'observed' computed from the simulated stream's own bookkeeping (bytes delivered = bytes consumed, because the decoder does not read ahead), the classification of a cut at a frame boundary or inside a header as a clean end (C03), sticky EOF/errors as net/http bodies behave.",
+  technique="deterministic simulation with fault injection: single-fault enumeration and seeded multi-fault runs over release orders; fault-free-twin oracle and close accounting"),
+ "C16": dict(
+  level="exploration", ref="DESIGN.md §3.6",
+  text="The real cobra command runs at a simulated wall-clock instant (synctest fake clock) against the simulated daemon; the since/until of the ContainerLogs call - the only place the resolved range leaves the process - is compared with integer-nanosecond arithmetic over the generated flags, and malformed values or a non-positive step must fail before any log request. Only the facets that reach a seam are decided: the value of the default or an accepted step, and sub-second agreement of spellings, are not observable there and are not claimed.",
+  note="Trusted: Go's time formatting for the generated spellings; Prometheus duration syntax as generated (w,d,h,m,s,ms in descending order). Not decided: value of the default step max(1s, floor((end-start)/250) s), value of an accepted explicit step, sub-second equality of spellings.",
+  technique="deterministic simulation: real CLI under a simulated clock against a simulated daemon; arithmetic oracle on the recorded transport options"),
+ "C18": dict(
+  level="exploration", ref="DESIGN.md §3.7",
+  text="The same plan is re-executed >= 4 times varying only what the simulator owns: release order of the concurrent requests (all n! for small n), read fragmentation, map and stream order at the seams; canonical results, error outcome and - through the real command - stdout bytes must agree. A second phase runs the generator under the race detector with whole batches of parked calls released at once. Sampling: evidence, not proof; the race verdict is the Go detector's.",
+  note="Trusted: canonicalisation (streams/series sorted by label rendering, entries of a stream as a multiset), exclusion of constructs whose answer LogQL leaves open (topk/bottomk ties, sort) and of inexact float sums. Race replay re-runs the race binary; Go gives no formal guarantee that a race is reported on every run.",
+  technique="deterministic simulation: self-agreement across seeded schedules, fragmentations and map orders; race-detector phase with parallel release"),
 }
 
 NA = {
@@ -25,7 +55,7 @@ NA = {
  "C19": "algebraic relations between pure evaluations",
  "C20": "pure function of a string; its consequence for selection is exercised by C02's generator only",
 }
-PENDING = {k: "check under construction in this session (DESIGN.md §3); will be claimed once it runs" for k in ("C02","C04","C10","C14","C16","C18")}
+PENDING = {}
 
 def main():
     checks = []
